@@ -842,7 +842,8 @@ func runTransportCase(r *vf.Run, pool []*keys.Identity, tc tcase) {
 func TestCheck(t *testing.T) {
 	r := vf.Start(t, "C03", vf.Exploration)
 	defer r.Finish()
-	r.SetRule("chain cases = harness-made DER chains: every variant of {valid (own construction / package extension / critical), binding embeds another key, binding signed by another key, binding over another cert key, binding lifted from another certificate, wrong / no prefix, extension missing / other OID / empty / not ASN.1 / truncated at PRNG position / one bit flipped at PRNG position / duplicated, certificate signed by another key (same name / CA), certificate signed by another key whose signatureAlgorithm identifiers were rewritten at the ASN.1 level (both / outer only / inner only / two different ones) to an OID crypto/x509 does not know (9 OIDs incl. a PRNG arc), to an MD2/MD5/SHA-1/DSA algorithm it refuses, or to another algorithm it knows, with the stale signature or with the rewritten TBS signed again by the other key, self-signed certificate whose signature value has one bit flipped at a PRNG position / is empty / truncated / zeroed / taken from another certificate over the same key, expired, not yet valid, chain of 0 / 2 distinct / 2 equal / valid+garbage / garbage} x cert key type {P-256, P-384, Ed25519} x expected-peer constraint {none, K, another peer, and 12 well-formed ids (accepted by peer.IDFromBytes) that are no peer's id: sha2-256 multihash of K's / another key's protobuf, of K's raw key, of no key, empty digest, sha2-512 and another hash code, identity multihash embedding K's key under an unsupported key type (0, 2, 77), another key under type 3, a truncated key}; each is given to PubKeyFromCertChain (when parsable) and to the VerifyPeerCertificate callback of Identity.ConfigForPeer; chain histories = PRNG interleavings of families {honest chain H, forged chains re-using H's key extension / binding signature / TLS key / whole certificate} in the order forged* H forged+ [H forged*] per family, judged step by step by the same stateless oracle. Oracle by construction: accept <=> single self-signed cert with one binding signed by K over prefix||PKIX(cert key) and (no constraint or constraint = ID(K)); a certificate whose signature was not made by its own key over its own TBS is not self-signed whatever its algorithm identifiers say; a constraint that is no key's id refuses everybody; delivered key = K; no key on error. Transport cases = real pconn/quic transports and hostile raw quic-go endpoints (crafted tls.Config with those chains) on an in-memory switch, inbound and outbound, required-peer dial/DialSession/listen with the right and the wrong honest peer answering, the required id being X's id or one of 6 of the well-formed non-peer id shapes (nobody may be accepted), mixed sequences on one listener, PRNG histories in which an impersonator presents a certificate over its own TLS key carrying a byte copy of a running honest victim's key extension before and after the honest node had a session with that victim (inbound, outbound with / without required peer, two victims interleaved), and two DialPeer requests for one address with every ordered pair of required peers over {none, X, Y} while X resp. Y serves it, overlapping (the network holds the first dial in flight until the second request is parked behind it, detected by goroutine state) and sequential, and simultaneous-open cases (the network keeps L's own dial of H in flight - selective hold by QUIC connection id - while the peer at H, a raw endpoint with Y's key, opens a session to L; then L's dial, requiring X / Y / nobody, goes through and Y answers); every dial request of an honest node is recorded with the logical clock of its transport handler (callbacks seen so far) and, once the dialing machinery is at rest (no goroutine of the case inside the dialer, a handler callback or a link tear-down on two consecutive looks), every link REPORTED established to the handler towards a dialed address must be permitted by a request made before the report (no constraint, or requiring exactly the peer the link names) or by a session the harness opened from that address: a refused dial leaves no established report, and in the simultaneous-open cases it leaves the link Y opened in place (exactly one established report for the address, no loss report for it, still the transport's link for the address; idle time-out 10 min there); every link reported to a TransportHandler must name the identity held at its remote address, forged endpoints must get no link. Distinct = distinct (variant, key type, flags, position, constraint, path) resp. transport case.")
+	r0 := ("chain cases = harness-made DER chains: every variant of {valid (own construction / package extension / critical), binding embeds another key, binding signed by another key, binding over another cert key, binding lifted from another certificate, wrong / no prefix, extension missing / other OID / empty / not ASN.1 / truncated at PRNG position / one bit flipped at PRNG position / duplicated, certificate signed by another key (same name / CA), certificate signed by another key whose signatureAlgorithm identifiers were rewritten at the ASN.1 level (both / outer only / inner only / two different ones) to an OID crypto/x509 does not know (9 OIDs incl. a PRNG arc), to an MD2/MD5/SHA-1/DSA algorithm it refuses, or to another algorithm it knows, with the stale signature or with the rewritten TBS signed again by the other key, self-signed certificate whose signature value has one bit flipped at a PRNG position / is empty / truncated / zeroed / taken from another certificate over the same key, expired, not yet valid, chain of 0 / 2 distinct / 2 equal / valid+garbage / garbage} x cert key type {P-256, P-384, Ed25519} x expected-peer constraint {none, K, another peer, and 12 well-formed ids (accepted by peer.IDFromBytes) that are no peer's id: sha2-256 multihash of K's / another key's protobuf, of K's raw key, of no key, empty digest, sha2-512 and another hash code, identity multihash embedding K's key under an unsupported key type (0, 2, 77), another key under type 3, a truncated key}; each is given to PubKeyFromCertChain (when parsable) and to the VerifyPeerCertificate callback of Identity.ConfigForPeer; chain histories = PRNG interleavings of families {honest chain H, forged chains re-using H's key extension / binding signature / TLS key / whole certificate} in the order forged* H forged+ [H forged*] per family, judged step by step by the same stateless oracle. Oracle by construction: accept <=> single self-signed cert with one binding signed by K over prefix||PKIX(cert key) and (no constraint or constraint = ID(K)); a certificate whose signature was not made by its own key over its own TBS is not self-signed whatever its algorithm identifiers say; a constraint that is no key's id refuses everybody; delivered key = K; no key on error. Transport cases = real pconn/quic transports and hostile raw quic-go endpoints (crafted tls.Config with those chains) on an in-memory switch, inbound and outbound, required-peer dial/DialSession/listen with the right and the wrong honest peer answering, the required id being X's id or one of 6 of the well-formed non-peer id shapes (nobody may be accepted), mixed sequences on one listener, PRNG histories in which an impersonator presents a certificate over its own TLS key carrying a byte copy of a running honest victim's key extension before and after the honest node had a session with that victim (inbound, outbound with / without required peer, two victims interleaved), and two DialPeer requests for one address with every ordered pair of required peers over {none, X, Y} while X resp. Y serves it, overlapping (the network holds the first dial in flight until the second request is parked behind it, detected by goroutine state) and sequential, and simultaneous-open cases (the network keeps L's own dial of H in flight - selective hold by QUIC connection id - while the peer at H, a raw endpoint with Y's key, opens a session to L; then L's dial, requiring X / Y / nobody, goes through and Y answers); every dial request of an honest node is recorded with the logical clock of its transport handler (callbacks seen so far) and, once the dialing machinery is at rest (no goroutine of the case inside the dialer, a handler callback or a link tear-down on two consecutive looks), every link REPORTED established to the handler towards a dialed address must be permitted by a request made before the report (no constraint, or requiring exactly the peer the link names) or by a session the harness opened from that address: a refused dial leaves no established report, and in the simultaneous-open cases it leaves the link Y opened in place (exactly one established report for the address, no loss report for it, still the transport's link for the address; idle time-out 10 min there); every link reported to a TransportHandler must name the identity held at its remote address, forged endpoints must get no link. Distinct = distinct (variant, key type, flags, position, constraint, path) resp. transport case.")
+	r.SetRule(r0 + " Helper cases: every exported entry point of transport/common/quic taking a required remote peer, called directly over an in-memory stream - {DialSession, DialSessionViaTransport (shared quic.Transport), ListenSession, stream Transport.HandleConn dial, HandleConn listen} x constraint {none, X, Y} x key really held at the other end {X, Y} (the far end uses the plain helpers without constraint) x remote address given to the local side {plain, peer address (peer.NetAddr) naming X / Y / the local peer, none (HandleConn derives it from the required peer)}; oracle: constraint set and another key answers => the call returns an error (a listen call that keeps waiting is cancelled once the far end's session attempt is over; a dial side parked in quic-go's clean-up is hung up by the harness - goroutine state, no timing); success => the key / link / handler report names the identity whose key signed the remote certificate (harness ground truth), whatever the address says.")
 	r.Assume("crypto/x509, crypto/tls, crypto/ed25519 and quic-go are trusted; the harness' certificate builder is the ground truth for well-formedness")
 	r.Assume("expired / not-yet-valid certificates and bit flips in the DER header of the extension are not judged for acceptance (only: if accepted, the key is K)")
 
@@ -945,8 +946,29 @@ func TestCheck(t *testing.T) {
 		tcs = sel
 	}
 	r.Extra("transport_cases", len(tcs))
+	// session helpers driven directly (helpers_test.go)
+	hcs := helperCases()
+	if only := os.Getenv("VERIF_C03_ONLY"); only != "" {
+		var sel []helperCase
+		for _, hc := range hcs {
+			if strings.Contains(hc.String(), only) {
+				sel = append(sel, hc)
+			}
+		}
+		hcs = sel
+	}
+	r.Extra("helper_cases", len(hcs))
 	sem := make(chan struct{}, 12)
 	var wg sync.WaitGroup
+	for _, hc := range hcs {
+		wg.Add(1)
+		sem <- struct{}{}
+		go func(hc helperCase) {
+			defer wg.Done()
+			defer func() { <-sem }()
+			runHelperCase(r, pool, hc)
+		}(hc)
+	}
 	for _, tc := range tcs {
 		wg.Add(1)
 		sem <- struct{}{}
